@@ -400,6 +400,46 @@ pub fn gen_claim_sum(r: &mut Rng) -> Ledger {
 }
 
 
+/// A long history of one security: 34–60 acquisition days on distinct dates, sales that use lots up,
+/// now and then a capital event or a split (when the configuration allows) — sizes that thresholds in
+/// the lot bookkeeping (tens of lots) can only be crossed by.
+pub fn gen_long(r: &mut Rng, cfg: &GenCfg) -> Ledger {
+    let tk = "AAA";
+    let mut date = d(2010 + r.below(6) as i32, 1 + r.below(12) as u32, 1 + r.below(28) as u32);
+    let mut out: Ledger = Vec::new();
+    let mut pos = Decimal::ZERO;
+    let nbuys = 34 + r.below(27);
+    for _ in 0..nbuys {
+        date = date + Duration::days(r.range(3, 45));
+        let q = gen_qty(r, false);
+        pos += q;
+        out.push(GTx::new(date, tk, Kind::Buy, q, gen_price(r), gen_fee(r, cfg.fees)));
+        match r.below(12) {
+            0..=2 if pos > Decimal::ZERO => {
+                let q = if r.chance(1, 3) { pos } else { (pos / Decimal::from(r.range(2, 6))).round_dp(0).max(Decimal::ONE).min(pos) };
+                pos -= q;
+                out.push(GTx::new(date + Duration::days(r.range(0, 2)), tk, Kind::Sell, q, gen_price(r), gen_fee(r, cfg.fees)));
+            }
+            3 if cfg.cost_events && pos > Decimal::ZERO => {
+                let k = if r.chance(1, 2) { Kind::Accumulation } else { Kind::CapReturn };
+                out.push(GTx::new(date + Duration::days(1), tk, k, pos, Decimal::new(r.range(1, 5_000), 2), Decimal::ZERO));
+            }
+            4 if cfg.splits => {
+                let ratio = exact_ratio(r);
+                pos *= ratio;
+                out.push(GTx::new(date + Duration::days(1), tk, Kind::Split, ratio, Decimal::ZERO, Decimal::ZERO));
+            }
+            _ => {}
+        }
+    }
+    if pos > Decimal::ZERO {
+        let q = (pos / Decimal::from(r.range(1, 4))).round_dp(0).max(Decimal::ONE).min(pos);
+        out.push(GTx::new(date + Duration::days(r.range(1, 60)), tk, Kind::Sell, q, gen_price(r), gen_fee(r, cfg.fees)));
+    }
+    if r.chance(1, 4) { r.shuffle(&mut out); }
+    out
+}
+
 /// Contention shapes built deliberately: k earlier disposals × one later purchase that may have its
 /// own same-day sale × optional split between.
 pub fn gen_contention(r: &mut Rng, cfg: &GenCfg) -> Ledger {
